@@ -115,6 +115,40 @@ def divergences(spec, impl):
     return out
 
 
+# field names: the wire carries no names, so that a layout reports a value under the right name is
+# checked on the aligned positions of the two shapes: the last path components must agree after
+# normalisation, or be one of these reviewed synonym pairs (wire-format name, dissector's json name)
+NAME_SYNONYMS = {
+    ("acks", "requiredacks"), ("logappendtime", "logappendtimems"), ("maxwaittime", "maxwaitms"),
+    ("partition", "index"), ("partition", "partitionindex"), ("partitions", "partitionresponses"),
+    ("topic", "name"), ("topicnames", "name"), ("topicnames", "topics"), ("topics", "responses"),
+    ("topics", "topicdata"),
+}
+
+
+def _norm_name(path):
+    import re
+    return re.sub(r"[^a-z0-9]", "", path.split(".")[-1].replace("[]", "").lower())
+
+
+def name_mismatches(spec, impl):
+    """Aligned positions (before any divergence) whose names do not agree."""
+    out = []
+
+    def go(s, i):
+        for idx in range(min(len(s), len(i))):
+            a, b = s[idx], i[idx]
+            if a[0] != b[0]:
+                return
+            na, nb = _norm_name(a[1]), _norm_name(b[1])
+            if na != nb and (na, nb) not in NAME_SYNONYMS and not a[1].startswith("_"):
+                out.append((a[1], b[1]))
+            if a[0] in ("arr", "carr"):
+                go(a[2], b[2])
+    go(flat_ty(spec), flat_ty(impl))
+    return out
+
+
 def known_entries():
     p = os.path.join(vlib.VERIF, "known", "kafka.json")
     try:
@@ -192,13 +226,17 @@ def impl_tokens(v):
     return out
 
 
-def first_mismatch(spec, impl):
+def first_mismatch(spec, impl, soft=None):
+    """First position at which the reported tokens part from the encoded ones.  soft(i) may accept a
+    mismatch at position i (a recorded divergence on whose domain the two still line up)."""
     for i in range(max(len(spec), len(impl))):
         if i >= len(spec):
             return i, "impl reports more fields"
         if i >= len(impl):
             return i, "impl reports fewer fields"
         if spec[i] != impl[i]:
+            if soft is not None and soft(i):
+                continue
             return i, "encoded %r, reported %r" % (spec[i], impl[i])
     return None
 
@@ -250,7 +288,21 @@ def check_conversation(ctx, conv, res, how):
             fail(None, "header of %s v%d: encoded %r, reported %r" % (ex["name"], ex["ver"], hdr_exp, hdr_got))
         for dirn, toks, payload in (("request", ex["req"], it["req"]), ("response", ex["resp"], it["resp"])):
             st, im = spec_tokens(toks), impl_tokens(payload)
-            mm = first_mismatch(st, im)
+            softened = []
+
+            def soft(i, toks=toks, st=st, im=im, dirn=dirn):
+                # an array decoded as {count, one element}: on the domain "exactly one element" the
+                # tokens line up and the comparison goes on
+                kf = known_layout(ex["name"], ex["ver"], dirn, toks[i]["p"])
+                if kf and kf["witness"].get("single_element_form") and kf["witness"]["first_diverging_field"] == toks[i]["p"] \
+                        and st[i] == ("n", 1) and im[i] == ("i", 4, 1):
+                    softened.append(kf)
+                    return True
+                return False
+            mm = first_mismatch(st, im, soft)
+            for kf in softened[:1]:
+                fail(kf["class"], "%s v%d %s: field %s decoded as {count, single element}" % (
+                    ex["name"], ex["ver"], dirn, kf["witness"]["first_diverging_field"]), api=ex["name"], ver=ex["ver"], dir=dirn, known=True)
             if mm is None:
                 continue
             idx, why = mm
@@ -721,3 +773,55 @@ def replay_raw(ctx, r):
     print("what failed:", r.get("what"))
     print("observed now:", json.dumps(res)[:3000])
     return res
+
+
+# --------------------------------------------------------------------------- C16 (Kafka share)
+SUMMARY_FIELDS = {   # api -> (array field of the request payload, name field inside an element or None for plain strings)
+    "Metadata": [("topics", "name")], "Produce": [("topicData", "topic")], "Fetch": [("topics", "topic")],
+    "ListOffsets": [("topics", "name")], "CreateTopics": [("topics", "name")],
+    "DeleteTopics": [("topicNames", None), ("topics", "name")],
+}
+
+
+def expected_summary(item):
+    """Summary and click-to-filter query that are true of the item's own (reported) request."""
+    if item["name"] == "ApiVersions":
+        c = bytes.fromhex(item["client"]).decode("utf-8", "replace")
+        return c, 'request.clientID == "%s"' % c
+    fields = dict(item["req"]["f"]) if item["req"] else {}
+    for arr, name in SUMMARY_FIELDS.get(item["name"], []):
+        if arr in fields and "a" in fields[arr]:
+            names, clauses = [], []
+            for i, e in enumerate(fields[arr]["a"]):
+                v = e if name is None else dict(e["f"])[name]
+                s = bytes.fromhex(v["s"]).decode("utf-8", "replace")
+                names.append(s)
+                clauses.append('request.payload.%s[%d]%s == "%s"' % (arr, i, "" if name is None else "." + name, s))
+            return ", ".join(names), " and ".join(clauses)
+    return "", ""
+
+
+def c16(ctx):
+    """The summary of a Kafka entry lists its topics and its query has one clause per topic that
+    names that topic (so that the query is true of the entry it was made from)."""
+    ensure(ctx)
+    convs = [c for c in gen(ctx) if c["kind"] in ("grid-one", "grid", "mix")]
+    cases = [conv_case(c) for c in convs]
+    res_run = run(ctx, cases, mode="run")
+    res_stage = run(ctx, cases, mode="stage")
+    nviol = 0
+    for c, rr, rs in zip(cases, res_run, res_stage):
+        if not rr or not rs:
+            continue
+        for it, st in zip(rr["items"], rs.get("stages") or []):
+            names_ok = all(32 <= b < 127 and b not in (34, 92) for b in bytes.fromhex(it["client"]))
+            exp_s, exp_q = expected_summary(it)
+            if not all(32 <= ord(ch) < 127 and ch not in '"\\' for ch in exp_s):
+                continue        # interpolated values outside the safe-string domain (D43)
+            ctx.count_case(("kafka-c16", c["c"], it["corr"]), bool(exp_s), "kafka-summary")
+            if st["ok"] and names_ok and (st["summary"], st["summaryQuery"]) != (exp_s, exp_q):
+                if nviol < 3:
+                    ctx.violation(raw_replay(c, "summary of the %s v%d entry: expected %r / %r, got %r / %r" % (
+                        it["name"], it["ver"], exp_s, exp_q, st["summary"], st["summaryQuery"]), "vh-kafka stage"))
+                nviol += 1
+    return nviol
